@@ -509,3 +509,88 @@ def gw6(P, C):
     base = [x for x in f.walk() if f.k(x) == "IfStmt" and f.alpha(f.nodes[x]["cond"])[0].replace(" ", "") == "($1==0)"]
     ok_b = len(base) == 1 and any(f.alpha(y)[0].replace(" ", "") == "($4[0]=1)" for y in f.walk(f.nodes[base[0]]["then"]) if ts.assign_parts(f, y))
     C.ob("GW-6", "divided_diffs", "base-case", ok_b, f.loc(base[0]) if base else f.where(), "porder == 0: the stencil is [1]")
+
+
+# --------------------------------------------------------------------------
+# IW-1: products of index ranges and flattened indices of the fit's n-dimensional arrays are formed in 64 bits
+# --------------------------------------------------------------------------
+W64 = ("long", "unsigned long", "size_t", "uint64_t", "int64_t", "long long", "unsigned long long", "ssize_t", "ptrdiff_t", "SuiteSparse_long")
+IW_FLOAT = ("double", "float", "long double")
+IW_FIELDS = ("ranges", "i")            # struct ndsparse: index ranges per dimension, index columns
+
+
+def iw1(P, C):
+    C.rule("IW-1", "in the C fitter every multiplication that has an index range (ndsparse.ranges[..]), an index entry (ndsparse.i[..][..]) or a "
+           "local accumulated from them (stride, cols, moduli) as an operand is carried out in a 64-bit type: the normal matrix F is indexed "
+           "over the SQUARE of the number of coefficients, so a flattened index or the product of the other dimensions' ranges passes 2^32 "
+           "for tables of a few tens of thousands of coefficients, and a 32-bit product wraps silently (wrong matrix) or goes negative (CHOLMOD "
+           "refuses, NULL is dereferenced)", floor=6)
+    n = 0
+    for f in sorted(P.functions.values(), key=lambda g: (g.file, g.line)):
+        if f.unit not in ("fitter/glam", "fitter/splineutil"):
+            continue
+
+        def direct(i):
+            for x in f.walk(i):
+                nx = f.nodes[x]
+                if nx["k"] == "MemberExpr" and nx.get("member") in IW_FIELDS and "ndsparse" in nx.get("fieldOf", ""):
+                    return True
+            return False
+        # locals accumulated from ranges / index entries (closure over assignments and initialisers)
+        tainted = set()
+        changed = True
+        while changed:
+            changed = False
+            for i in f.walk():
+                nn = f.nodes[i]
+                tgt, src = None, None
+                if nn["k"] in ("BinaryOperator", "CompoundAssignOperator") and nn.get("op") in ("=", "*=", "+="):
+                    l = f.strip(nn["ch"][0])
+                    while f.k(l) == "ArraySubscriptExpr":
+                        l = f.strip(f.ch(l)[0])
+                    if f.k(l) == "DeclRefExpr" and f.nodes[l]["decl"].get("kind") == "Var":
+                        tgt, src = f.nodes[l]["decl"]["id"], nn["ch"][1]
+                elif nn["k"] == "DeclStmt":
+                    for d in nn["decls"]:
+                        if d.get("dk") == "Var" and d.get("init", -1) >= 0:
+                            if _iw_carries(f, d["init"], tainted, direct) and d["id"] not in tainted:
+                                tainted.add(d["id"])
+                                changed = True
+                if tgt is not None and tgt not in tainted and nn.get("op") in ("*=", "=") and _iw_carries(f, src, tainted, direct) and _iw_is_product(f, nn, src):
+                    tainted.add(tgt)
+                    changed = True
+        for i in f.walk():
+            nn = f.nodes[i]
+            if nn["k"] not in ("BinaryOperator", "CompoundAssignOperator") or nn.get("op") not in ("*", "*="):
+                continue
+            if not any(_iw_carries(f, c, tainted, direct) for c in nn["ch"]):
+                continue
+            # the type the product is computed in: for `a *= b` the usual arithmetic conversion of both sides
+            ts_ = [f.nodes[f.strip(c)].get("t", "") for c in nn["ch"]] if nn["op"] == "*=" else [nn.get("t", "")]
+            if nn["op"] == "*":
+                ok = nn.get("t", "") in W64 or nn.get("t", "") in IW_FLOAT
+            else:
+                ok = any(t in W64 or t in IW_FLOAT for t in ts_)
+            n += 1
+            C.ob("IW-1", f.name, "%s@%s" % (f.render(i)[:60], f.loc(i).rsplit(":", 1)[-1]), ok, f.loc(i),
+                 "computed in %s" % (nn.get("t", "") if nn["op"] == "*" else " x ".join(ts_)) if ok else
+                 "%s is computed in %s: 32 bits, although an operand is a product of index ranges / a flattened index of the fit's arrays "
+                 "(ranges are squares of the per-dimension spline counts while F is formed)" % (f.render(i)[:80], nn.get("t", "") if nn["op"] == "*" else " x ".join(ts_)))
+    return n
+
+
+def _iw_is_product(f, nn, src):
+    """`v *= e`, or `v = a * b` / `v = v' ` copying a product: the target accumulates"""
+    if nn.get("op") == "*=":
+        return True
+    s = f.strip(src)
+    return f.k(s) == "BinaryOperator" and f.nodes[s].get("op") in ("*", "+")
+
+
+def _iw_carries(f, i, tainted, direct):
+    if direct(i):
+        return True
+    for x in f.walk(i):
+        if f.k(x) == "DeclRefExpr" and f.nodes[x]["decl"].get("id") in tainted:
+            return True
+    return False
